@@ -16,6 +16,12 @@ type SVal struct {
 	typ   types.Type // Go type when known
 	sort  string
 	isNil bool
+	addr  string // struct variable resident in memory, not loaded yet (t == "")
+}
+
+func isStructType(t types.Type) bool {
+	_, ok := t.Underlying().(*types.Struct)
+	return ok
 }
 
 type Env struct {
@@ -80,7 +86,18 @@ func specSort(name string) string {
 	return name
 }
 
+// evalSpec evaluates to a value; struct-typed variables that live in memory are loaded here
+// (evalRaw keeps them as addresses so that field selection reads only the field).
 func (e *enc) evalSpec(x SExpr, env *Env) SVal {
+	v := e.evalRaw(x, env)
+	if v.addr != "" && v.t == "" {
+		v.t = e.loadValue(env.st, v.addr, v.typ)
+		v.addr = ""
+	}
+	return v
+}
+
+func (e *enc) evalRaw(x SExpr, env *Env) SVal {
 	switch n := x.(type) {
 	case *SInt:
 		return SVal{t: n.v, sort: "Int"}
@@ -146,7 +163,7 @@ func (e *enc) evalSpec(x SExpr, env *Env) SVal {
 				}
 			}
 		}
-		v := e.evalSpec(n.x, env)
+		v := e.evalRaw(n.x, env)
 		return e.selectField(v, n.name, env)
 	case *SIndex:
 		v := e.evalSpec(n.x, env)
@@ -282,11 +299,34 @@ func (e *enc) evalIdent(name string, env *Env) SVal {
 			fmt.Sscanf(name[i+1:], "%d", &k)
 		}
 		cnt := 0
+		// rangeindex#k: the index variable of the range loop that is loop number k (source order)
+		var loopIdx *ssa.Alloc
+		if want == "rangeindex" && strings.Contains(name, "#") {
+			for h, li := range e.loops {
+				if li.ordinal != k {
+					continue
+				}
+				for _, ins := range h.Instrs {
+					if s, ok := ins.(*ssa.Store); ok {
+						if a, ok := s.Addr.(*ssa.Alloc); ok && a.Comment == "rangeindex" {
+							loopIdx = a
+						}
+					}
+				}
+			}
+			if loopIdx == nil {
+				env.fail("loop %d is not a range-over-slice loop", k)
+			}
+		}
 		for _, b := range e.fn.Blocks {
 			for _, ins := range b.Instrs {
 				if a, ok := ins.(*ssa.Alloc); ok && a.Comment == want {
 					cnt++
-					if cnt != k {
+					if loopIdx != nil {
+						if a != loopIdx {
+							continue
+						}
+					} else if cnt != k {
 						continue
 					}
 					t := a.Type().Underlying().(*types.Pointer).Elem()
@@ -302,6 +342,9 @@ func (e *enc) evalIdent(name string, env *Env) SVal {
 					if !ok {
 						ref = e.newAllocRefFor(a)
 						e.allocRef[a] = ref
+					}
+					if isStructType(t) {
+						return SVal{addr: ref, typ: t, sort: sortOf(t)}
 					}
 					return SVal{t: e.loadValue(env.st, ref, t), typ: t, sort: sortOf(t)}
 				}
@@ -354,6 +397,16 @@ func (e *enc) selectField(v SVal, name string, env *Env) SVal {
 	for _, idx := range path {
 		s := structOf(cur.typ)
 		f := s.Field(idx)
+		if cur.addr != "" && cur.t == "" {
+			// struct resident in memory: address arithmetic, load only the leaf
+			fa := e.mkFld(cur.addr, fieldID(f))
+			if isStructType(f.Type()) {
+				cur = SVal{addr: fa, typ: f.Type(), sort: sortOf(f.Type())}
+			} else {
+				cur = SVal{t: e.loadValue(env.st, fa, f.Type()), typ: f.Type(), sort: sortOf(f.Type())}
+			}
+			continue
+		}
 		if _, ptr := cur.typ.Underlying().(*types.Pointer); ptr {
 			addr := e.mkFld(cur.t, fieldID(f))
 			cur = SVal{t: e.loadValue(env.st, addr, f.Type()), typ: f.Type(), sort: sortOf(f.Type())}
@@ -551,6 +604,18 @@ func (e *enc) evalCall(n *SCall, env *Env) SVal {
 		}
 		cell, vs := e.storeCell(kind)
 		return SVal{t: fmt.Sprintf("(select (select %s %s) %s)", e.get(env.st, cell, e.cellSortOf[cell]), s.t, k.t), sort: vs}
+	case "has":
+		// has(m, k): key k is present in map m
+		m, k := arg(0), arg(1)
+		if m.typ == nil {
+			env.fail("has() of untyped map")
+		}
+		mt, ok := m.typ.Underlying().(*types.Map)
+		if !ok {
+			env.fail("has() expects a map")
+		}
+		d, _ := e.mapCells(env.st, mt)
+		return SVal{t: fmt.Sprintf("(and (not (= %s null)) (select (select %s %s) %s))", m.t, e.get(env.st, d, e.mapCellSort(d)), m.t, k.t), sort: "Bool"}
 	case "hasPrefix":
 		e.declareFun("hasPrefix", "(Str Str) Bool")
 		return SVal{t: fmt.Sprintf("(hasPrefix %s %s)", arg(0).t, arg(1).t), sort: "Bool"}
@@ -696,6 +761,38 @@ func (e *enc) evalCall(n *SCall, env *Env) SVal {
 		}
 		env2.fn = nil
 		return e.evalSpec(pd.body, &env2)
+	}
+	// a deterministic library function over plain values (path.Base, strings.HasPrefix, ...)
+	if parts := strings.SplitN(n.fun, ".", 2); len(parts) == 2 {
+		if pk := e.importedPkg(env, parts[0]); pk != nil && !strings.HasPrefix(pk.Path(), datamonPrefix) {
+			if tf, ok := pk.Scope().Lookup(parts[1]).(*types.Func); ok {
+				det := false
+				for _, dp := range detPkgs {
+					if pk.Path() == dp {
+						det = true
+					}
+				}
+				sig := tf.Type().(*types.Signature)
+				if det && sig.Params().Len() == len(n.args) && sig.Results().Len() >= 1 {
+					var as, sorts []string
+					okArgs := true
+					for i := range n.args {
+						ps := sortOf(sig.Params().At(i).Type())
+						if ps != "Int" && ps != "Bool" && ps != "Str" {
+							okArgs = false
+						}
+						as = append(as, arg(i).t)
+						sorts = append(sorts, ps)
+					}
+					if okArgs {
+						fnm := "pure_" + sanitize(pk.Name()+"."+tf.Name()) + "_0"
+						rs := sortOf(sig.Results().At(0).Type())
+						e.declareFun(fnm, fmt.Sprintf("(%s) %s", strings.Join(sorts, " "), rs))
+						return SVal{t: fmt.Sprintf("(%s %s)", fnm, strings.Join(as, " ")), sort: rs, typ: sig.Results().At(0).Type()}
+					}
+				}
+			}
+		}
 	}
 	short := n.fun
 	if i := strings.LastIndex(short, "."); i >= 0 {
